@@ -238,15 +238,18 @@ class GpRegressor:
 
         # (a copy: the regressor goes on using these values in every prediction, whatever
         # the caller does with its own array afterwards)
-        self.hyperpars = array(hyperpars, dtype=float)
+        hyperpars = array(hyperpars, dtype=float)
+        # (everything is computed first and stored afterwards: if the values cannot be used -
+        # no Cholesky factor, non-finite entries - the call raises and the regressor goes on
+        # answering for the hyper-parameters it held before)
+        K_xx = self.cov.build_covariance(hyperpars[self.cov_slice]) + self.sig
+        mu = self.mean.build_mean(hyperpars[self.mean_slice])
+        L = cholesky(K_xx)
+        alpha = solve_triangular(L.T, solve_triangular(L, self.y - mu, lower=True))
+        self.hyperpars = hyperpars
         self.mean_hyperpars = self.hyperpars[self.mean_slice]
         self.cov_hyperpars = self.hyperpars[self.cov_slice]
-        self.K_xx = self.cov.build_covariance(self.cov_hyperpars) + self.sig
-        self.mu = self.mean.build_mean(self.mean_hyperpars)
-        self.L = cholesky(self.K_xx)
-        self.alpha = solve_triangular(
-            self.L.T, solve_triangular(self.L, self.y - self.mu, lower=True)
-        )
+        self.K_xx, self.mu, self.L, self.alpha = K_xx, mu, L, alpha
 
     def check_error_data(self, y_err, y_cov) -> ndarray:
         if y_cov is not None:
